@@ -178,6 +178,7 @@ class Cfg:
     n_iter: int = 3
     n_seeds: int = 20
     max_steps: int = 2000
+    c_omega: float = 20.0
     n_workers: int = 1
     nthreads: int = 1
     sleep: bool = False
@@ -321,7 +322,7 @@ def compute_map(env: Env, cfg: Cfg, rec: Recorder) -> Obs:
         pm.config = CenterManifoldMapConfig(seed_strategy=cfg.strategy, seed_axis=axis, section_coord=cfg.section,
                                             integration=IntegrationConfig(method=cfg.method))
     opts = CenterManifoldMapOptions(
-        integration=IntegrationOptions(dt=cfg.dt, order=cfg.order, max_steps=cfg.max_steps, c_omega_heuristic=20.0),
+        integration=IntegrationOptions(dt=cfg.dt, order=cfg.order, max_steps=cfg.max_steps, c_omega_heuristic=cfg.c_omega),
         iteration=IterationOptions(n_iter=cfg.n_iter), seeding=SeedingOptions(n_seeds=cfg.n_seeds),
         workers=WorkerOptions(n_workers=cfg.n_workers))
     nmax = int(numba.config.NUMBA_NUM_THREADS)
@@ -725,14 +726,14 @@ def shrink_monitor(ctx, envs, rec, cases, n_ref):
             good = e2 <= SHRINK * e1
             mech = None
             if not good and base.method == "symplectic":
-                omega_dt = (20.0 * d2) ** (-float(base.order)) * d2
+                omega_dt = (base.c_omega * d2) ** (-float(base.order)) * d2
                 if omega_dt > 2.0 * np.pi:
                     mech = MECH_SYMP_STALL
             fam = "rk" if base.method == "fixed" else "symplectic"
             ctx.stat(f"E(dt/2)/E(dt) [{fam}]", e2 / e1)
             ctx.check(good, f"2:energy error shrinks when dt is halved [{fam}]",
                       {"config": asdict(base), "dt": [d1, d2], "max_energy_error": [e1, e2], "ratio": e2 / e1,
-                       "omega_dt_at_finer_step": (20.0 * d2) ** (-float(base.order)) * d2 if base.method == "symplectic" else None}, mech)
+                       "omega_dt_at_finer_step": (base.c_omega * d2) ** (-float(base.order)) * d2 if base.method == "symplectic" else None}, mech)
 
 
 # ====================================================================== clause 4: schedule independence
@@ -950,7 +951,8 @@ def run(ctx):
         if q:
             shr = [(b.with_(section="q3", strategy="radial", energy=0.7, method="fixed", order=4), (0.02, 0.01, 0.005)),
                    (b.with_(section="p2", strategy="level_sets", energy=0.4, method="fixed", order=6), (0.02, 0.01)),
-                   (b.with_(section="q2", strategy="axis_aligned", energy=0.5, method="symplectic", order=4, n_iter=2), (0.02, 0.01))]
+                   (b.with_(section="q2", strategy="axis_aligned", energy=0.5, method="symplectic", order=4, n_iter=2), (0.02, 0.01)),
+                   (b.with_(section="q2", strategy="level_sets", energy=0.5, method="symplectic", order=6, n_iter=1), (0.01, 0.005))]
         else:
             shr = []
             for (p, d) in points:
